@@ -219,11 +219,16 @@ def j_c18_cutoff(inp):
 
 @judge_for("C18", "scale")
 def j_c18_scale(inp):
-    ms, k = inp
-    s = mk_rel(ms)
-    s.scale(k, quantise_afterwards=False)
-    a_in, d_in = abs_from_rel(ms)
-    a_out, d_out = abs_from_rel(rel_of(s))
+    ms, k = inp[0], inp[1]
+    how = inp[2] if len(inp) > 2 else "rel"
+    s = ops.scale_apply(inp)
+    a_in, d_in = abs_from_rel(ms if how != "abs" else rel_of(ops.mk_track(ms, how)))
+    if how == "rel":
+        a_out, d_out = abs_from_rel(rel_of(s))
+    else:           # observed through the absolute view, which was fresh before the call
+        a_out = abs_of(s)
+        d_out = a_out[-1][2] if a_out else 0
+        a_out = [m for m in a_out if m[0] != "INTERNAL"]
     exp = [m[:2] + (m[2] * k,) + m[3:] for m in a_in]
     v = []
     if events(exp) != events(a_out):
@@ -444,6 +449,21 @@ def j_c11_tok(inp):
     return v
 
 
+@judge_for("C11", "tok_stream")
+def j_c11_stream(inp):
+    cfg, toks = inp
+    t = ops.mk_tok(cfg)
+    try:
+        out = t.detokenise(list(toks))
+    except Exception:
+        return None
+    for s_ in out:
+        bad = [m for m in abs_of(s_) + rel_of(s_) if m[3]]
+        if bad:
+            return [f"detokenise produced a float tick {bad[0]}"]
+    return []
+
+
 # ---- C04 : views agree after every step; everything stays readable
 def _content(s):
     """canonical content through whichever view is fresh (independent conversion for the relative view)"""
@@ -457,6 +477,19 @@ def _content(s):
 
 def _c04_check(store, step, op, memo):
     v = []
+    if op[0] == "OOverwriteSelf" and op[1] < len(store):
+        # "the effect of every operation is visible": the sequence now holds exactly the messages the iterable yielded
+        if op[2] == "abs":
+            exp = (events(list(op[4])), max([m[2] for m in op[4]] + [0]))
+        else:
+            a_, d_ = abs_from_rel(list(op[4]))
+            exp = (events(a_), d_)
+        try:
+            got = _content(store[op[1]])
+        except Exception as e:
+            got = ("unreadable", str(e))
+        if got != exp:
+            v.append(f"step {step} {op[0]} ({op[2]}, {op[3]}): the sequence holds {got}, the messages handed over were {exp}")
     for i, s in enumerate(store):
         if s._abs_stale and s._rel_stale:
             v.append(f"step {step} {op[0]}: object {i} has both views stale (unreadable)")
@@ -538,6 +571,15 @@ def _c16_check(store, step, op, memo):
                 v.append(f"step {step} {op}: object {i} changed from {memo[i]} to {c} although the operation was not applied to it")
     if op[0] == "OCopy" and len(cur) > len(memo) and cur[-1] != cur[op[1]]:
         v.append(f"step {step}: copy of object {op[1]} differs from it")
+    if op[0] == "OBarCopy" and len(cur) > len(memo):
+        # Bar.copy() of a bar whose sequence is object i: the constructor normalises and pads, but on well-formed content
+        # the copy holds exactly the original's notes
+        try:
+            r_src, r_cpy = roll(abs_of(store[op[1]].copy())), roll(abs_of(store[-1].copy()))
+        except Exception:
+            r_src = r_cpy = None
+        if r_src is not None and wellformed(abs_of(store[op[1]].copy())) and r_cpy != r_src:
+            v.append(f"step {step}: the copy of the bar holds the notes {r_cpy}, the bar's sequence {r_src}")
     memo[:] = cur
     return v
 
@@ -931,7 +973,8 @@ def j_c15(inp):
 # ---- C17
 @judge_for("C17", "equals")
 def j_c17(inp):
-    a, b, fl, kind = inp
+    a, b, fl, kind = inp[:4]
+    share = len(inp) > 4 and inp[4]
     if not (wellformed(a) and wellformed(b)):
         return None
     # two different signatures of one type on the same tick and channel have no defined order (the stable sort keeps
@@ -948,7 +991,8 @@ def j_c17(inp):
         v.append("a sequence does not equal its copy")
     if not mk_abs(a).equals(mk_rel(G.abs_to_rel(a))) and len({m[2] for m in a}) == len(a):
         v.append("same events through the relative representation compare unequal")
-    r1, r2 = mk_abs(a).equals(mk_abs(b), *fl), mk_abs(b).equals(mk_abs(a), *fl)
+    p1, p2 = ops.mk_abs_pair(a, b, share), ops.mk_abs_pair(b, a, share)
+    r1, r2 = p1[0].equals(p1[1], *fl), p2[0].equals(p2[1], *fl)
     if r1 != r2:
         v.append("not symmetric")
     # ground truth by canonical content
@@ -971,24 +1015,32 @@ def j_c17(inp):
 
 
 # ---- C12
+@judge_for("C12", "midi_roundtrip_mi")
+def j_c12_mi(inp):
+    return j_c12(inp[0], inp[1])
+
+
 @judge_for("C12", "midi_roundtrip")
-def j_c12(rels):
+def j_c12(rels, mi=0):
     tracks = [abs_from_rel(ms)[0] for ms in rels]
     if not all(wellformed(a) and all(1 <= m[5] <= 127 for m in a if m[0] == "NOTE_ON") for a in tracks):
         return None
     ss = [mk_rel(ms) for ms in rels]
     path = os.path.join(ops.TMP, f"o{os.getpid()}.mid")
     Sequence.sequences_save(ss, path)
-    back = Sequence.sequences_load(path)
+    back = Sequence.sequences_load(path, target_meta_track_index=mi)
     v = []
     if len(back) != len(rels):
         return [f"{len(back)} sequences loaded, {len(rels)} saved"]
+    for i, s_ in enumerate(back):
+        if i != mi and any(m[0] in ("TIME_SIGNATURE", "KEY_SIGNATURE") for m in abs_of(s_)):
+            v.append(f"sequence {i} carries a signature although sequence {mi} is the designated meta sequence")
     strip = lambda l: sorted((p, on, d, vel) for _, p, on, d, vel in (roll(l) or [("x",) * 5]))
     for i, (a, s) in enumerate(zip(tracks, back)):
         if strip(a) != strip(abs_of(s)):
             v.append(f"sequence {i}: notes {strip(abs_of(s))} differ from saved {strip(a)}")
     allm = [m for a in tracks for m in a]
-    out0 = abs_of(back[0])
+    out0 = abs_of(back[mi])
     ticks = {m[2] for m in allm if m[0] in ("TIME_SIGNATURE", "KEY_SIGNATURE")}
     if len(ticks) == len([m for m in allm if m[0] in ("TIME_SIGNATURE", "KEY_SIGNATURE")]):   # no two signatures on one tick
         exp_ts = sig_in_force(allm, "TIME_SIGNATURE")
@@ -999,6 +1051,40 @@ def j_c12(rels):
         if sig_in_force(out0, "KEY_SIGNATURE") != sig_in_force(allm, "KEY_SIGNATURE"):
             v.append("key signature in force differs")
     return v
+
+
+# ---- C13 through Composition.from_midi_file: the bars must follow the signatures of the DESIGNATED meta sequence
+@judge_for("C13", "comp_file")
+def j_c13_comp(inp):
+    tpb, tracks, groups, metas, mi = inp
+    from scoda.elements.composition import Composition
+    ntr = len(tracks)
+    flat = [i for g in groups for i in g]
+    if not groups or any(not g for g in groups) or len(set(flat)) != len(flat) or any(i >= ntr for i in flat) \
+            or not (0 <= mi < len(groups)):
+        return None
+    if any(e[0] == "ks" and e[4] not in MusicMapping.KeyKeyMapping for t in tracks for e in t):
+        return None
+    path = os.path.join(ops.TMP, f"q{os.getpid()}.mid")
+    ops.write_midi(tpb, tracks, path)
+    try:
+        seqs = Sequence.sequences_load(path, track_indices=[list(g) for g in groups], meta_track_indices=list(metas),
+                                       target_meta_track_index=mi)
+        for s_ in seqs:
+            s_.quantise_and_normalise()
+        ref = Composition.from_sequences(seqs, mi)
+    except Exception:
+        return None          # the step-by-step route itself fails: judged by the loader / bar-splitting properties
+    try:
+        c = Composition.from_midi_file(path, [list(g) for g in groups], list(metas), mi)
+    except Exception as e:
+        return [f"from_midi_file raised {type(e).__name__}: {e} where load + quantise + from_sequences with the same meta index succeeds"]
+    sig = lambda comp: [[(b.time_signature_numerator, b.time_signature_denominator, b.key_signature) for b in t.bars] for t in comp.tracks]
+    if sig(c) != sig(ref):
+        return [f"bar signatures {sig(c)} differ from those of the designated meta sequence {sig(ref)}"]
+    if _comp_content(c) != _comp_content(ref):
+        return ["bars differ from load + quantise + from_sequences"]
+    return []
 
 
 # ---- C13
@@ -1223,6 +1309,37 @@ def j_c01(inp):
     return v
 
 
+@judge_for("C01", "tok_stateful")
+def j_c01_chunked(inp):
+    """the round trip through the incremental entry point: the piece cut at its bar lines with Sequence.split (no Bar
+    objects, hence no signature message per chunk), tokenised chunk by chunk with a caller-supplied state = {}"""
+    cfg, tracks = inp[0], inp[1]
+    vp = valid_piece(cfg, tracks)
+    if vp is None or len(vp["bounds"]) < 2:
+        return None
+    # chunks cut with split carry no signature of their own: only pieces whose single signature stands at tick 0 are judged
+    if any(m[0] == "TIME_SIGNATURE" and m[2] > 0 for a, _ in vp["info"] for m in a):
+        return None
+    t = ops.mk_tok(cfg)
+    caps = [e - s_ for s_, e, _ in vp["bounds"]]
+    try:
+        pieces = [mk_rel(ms).split(list(caps)) for ms in tracks]
+        n = max(len(p) for p in pieces)
+        state, toks = {}, []
+        for k in range(n):
+            toks += t.tokenise([(p[k] if k < len(p) else Sequence()) for p in pieces], state_dict=state)
+        whole = t.tokenise([mk_rel(ms) for ms in tracks])
+        o1, o2 = t.detokenise(whole), t.detokenise(toks)
+    except Exception as e:
+        return None if "Invalid" in str(e) else [f"chunked round trip raised {type(e).__name__}: {e}"]
+    v = []
+    for i, (x, y) in enumerate(zip(o1, o2)):
+        # a note crossing a bar line is cut by split into two abutting notes: compare what sounds, not the segmentation
+        if sounding(abs_of(x)) != sounding(abs_of(y)):
+            v.append(f"track {i}: notes {roll(abs_of(y))} after tokenising bar by bar with state = {{}}, {roll(abs_of(x))} in one call")
+    return v
+
+
 def dup_bins(nb):
     bs = round(127 / nb)
     bins = [min(127, (i + 1) * bs + bs // 2) for i in range(nb)]
@@ -1260,11 +1377,12 @@ def j_c02_vocab(cfg):
 @judge_for("C02", "tok_roundtrip")
 def j_c02_closed(inp):
     cfg, tracks = inp[0], inp[1]
+    hows = inp[2] if len(inp) > 2 and len(inp[2]) == len(tracks) else ["rel"] * len(tracks)
     if cfg[5] > 127:
         return None
     t = ops.mk_tok(cfg)
     try:
-        toks = t.tokenise([mk_rel(ms) for ms in tracks])
+        toks = t.tokenise([ops.mk_track(ms, h) for ms, h in zip(tracks, hows)])
     except Exception:
         return None
     bad = [x for x in toks if x not in t.dictionary]
@@ -1312,6 +1430,24 @@ def j_c03(inp):
         caps = lambda s: [m[2] for m in abs_of(s) if m[0] == "INTERNAL"]
         if caps(x) != caps(y):
             v.append(f"track {i}: bar grid differs {caps(x)} vs {caps(y)}")
+    # the state dictionary is a value: continuing from a copy taken after the first call (dict(state)) gives the same
+    # tokens as continuing with the original, in whichever order the two continuations run
+    if len(groups) > 1 and not v:
+        try:
+            b3, b4 = ops._bars_of(tracks), ops._bars_of(tracks)
+            sd1 = {}
+            t.tokenise([Bar.to_sequence(tb[groups[0][0]:groups[0][1]]) for tb in b3], state_dict=sd1, insert_bar_token=bar_tok)
+            snap = dict(sd1)
+            rest1, rest2 = [], []
+            for a, b in groups[1:]:
+                rest1 += t.tokenise([Bar.to_sequence(tb[a:b]) for tb in b3], state_dict=sd1, insert_bar_token=bar_tok)
+            for a, b in groups[1:]:
+                rest2 += t.tokenise([Bar.to_sequence(tb[a:b]) for tb in b4], state_dict=snap, insert_bar_token=bar_tok)
+            if rest1 != rest2:
+                v.append("continuing from a copy of the state dictionary gives different tokens than continuing from the original")
+        except Exception as e:
+            if "Invalid" not in str(e):
+                v.append(f"{type(e).__name__}: {e}")
     return v
 
 
